@@ -677,3 +677,4 @@ MANIFEST["text"] += ' The block sum is recognised in function and method form an
 MANIFEST["text"] += " For Dataset.crop a definite verdict is given when the slice stop is the caller's crop width reached through structure-preserving steps only (names, unpacking, dict(zip(…)), subscripts, starring): then a width of 0 provably reaches slice() as 0."
 MANIFEST["text"] += " Also: the operand of ufunc.reduceat is trimmed to a whole number of blocks (its last segment runs to the end of the axis); in fourier_resample the amplitude rescale and the new sampling must not depend on the caller's nominal `factors` alone (definition closure stopped at the parameter: no length, no rounding = nominal)."
 MANIFEST["text"] += ' R1 also: the sampling/origin setters do not truncate computed calibrations to the dtype of the previous calibration (shared instance of the C03 setter rule).'
+MANIFEST["text"] += " R1: bin's working vectors are storage of their own (coupled with validate_ndinfo); R3: the equal-length arm is evaluated algebraically and coupled with consumers of the slice(None) sentinel."
